@@ -370,6 +370,11 @@ func (d *Def) getMethodNameAndSetIsStatic(
 				ctx.IsDefineStatic,
 			)
 
+		// def x.m on a receiver that is not known (yet)
+		if objectT == nil {
+			return "", fmt.Errorf("'%s' is not defined", t.ToString())
+		}
+
 		if objectT.ID == "" {
 			objectT.ID = base.GenId()
 		}
